@@ -4,20 +4,21 @@
 (* interleaving of the steps (sched: one process number per Lookup / Load /     *)
 (* Flush) + the predicted hit (1) / miss (0) of every lookup.                   *)
 EXTENDS EntityCacheConc, EntityCacheMenu, Json
-VARIABLES sched, hits
+VARIABLES sched, kinds, hits
 \* pairs that overlap in entities but differ in representation set / selection / argument value, incl. two-step chains
 Conc_Pairs == {<<1, 1>>, <<1, 5>>, <<5, 1>>, <<1, 8>>, <<8, 6>>, <<1, 2>>, <<14, 1>>, <<14, 15>>, <<3, 4>>, <<16, 17>>, <<16, 18>>}
 Conc_PairsSmall == {<<1, 1>>, <<1, 8>>, <<14, 1>>, <<16, 17>>}
 Conc_HeaderChoice == {1, 11}     \* public, max-age=2  |  no header
 
-GenInit == Init /\ sched = <<>> /\ hits = [p \in Proc |-> <<>>]
+GenInit == Init /\ sched = <<>> /\ kinds = <<>> /\ hits = [p \in Proc |-> <<>>]
 GenNext == \E p \in Proc :
              /\ Step(p)
              /\ sched' = Append(sched, p)
+             /\ kinds' = Append(kinds, phase[p])
              /\ hits' = IF phase[p] = "lookup" THEN [hits EXCEPT ![p] = Append(@, IF phase'[p] = "load" THEN 0 ELSE 1)] ELSE hits
-GenSpec == GenInit /\ [][GenNext]_<<cvars, sched, hits>>
+GenSpec == GenInit /\ [][GenNext]_<<cvars, sched, kinds, hits>>
 Emit == IF AllDone
-        THEN PrintT(ToJson([conc |-> 1, q1 |-> q[1], q2 |-> q[2], h1 |-> hd[1], h2 |-> hd[2], sched |-> sched,
+        THEN PrintT(ToJson([conc |-> 1, q1 |-> q[1], q2 |-> q[2], h1 |-> hd[1], h2 |-> hd[2], sched |-> sched, kinds |-> kinds,
                             hits1 |-> hits[1], hits2 |-> hits[2]]))
         ELSE TRUE
 GenConstraint == Emit
